@@ -16,12 +16,18 @@
    link_dense_channels    hence C05's declarative clauses hold of C08's channel lists: the peak channel has the maximal
                           peak-to-peak amplitude and the channels are exactly (some set of the 12 nearest channels of
                           the peak) /\ (on its shank) /\ (amplitude >= 0 * peak), pairwise distinct.
-   Not required by Props.v / Corr.v for the check (this file depends on C05's files); Props.v re-exports the three
-   statements. *)
+   link_dominant_channels the same read on C08_mean_fn: the channels get_cluster_mean_waveforms returns are C05's
+                          Dense_channels of a dominant template (GeoWF: pairwise distinct positions);
+   link_main_template     the dominant template get_cluster_mean_waveforms takes (np.argmax of the bincount: lowest id
+                          among the most frequent) IS C05's main_template (_get_template_from_spikes behind
+                          get_cluster_channels): both functions list the channels of the same template.
+   Not required by Props.v / Corr.v (this file depends on C05's files, as C07/Link.v depends on C06's and C08's); every
+   theorem prints "Closed under the global context" when the file is compiled:
+     cd /verif/coq && coqc -noglob -Q theories PV theories/C08/Link.v *)
 From Coq Require Import ZArith List Lia Bool Arith Sorted Permutation.
 From PV Require Import Base.NpSearch Base.NpSort Base.Tok Base.TokArith.
-From PV Require C05.Model C05.Spec C05.Proofs C05.Proofs3 C05.Props.
-From PV Require Import C08.Model C08.Spec C08.Proofs C08.Proofs2 C08.Proofs5.
+From PV Require C05.Model C05.Spec C05.Proofs C05.Proofs3 C05.Proofs7 C05.Props.
+From PV Require Import C08.Model C08.Spec C08.Proofs C08.Proofs2 C08.Proofs5 C08.Proofs7.
 Import ListNotations.
 Open Scope Z_scope.
 
@@ -575,3 +581,63 @@ Example link_ex :
   M5.get_template stable_argsort (to_c05 ex_d) (req 0 true) = Some (M5.mkrec [[2; 5]; [1; 4]] [3; 3] 0 [1; 0]%nat) /\
   S5.nearest_determined (positions ex_d) 2 n_closest_channels = true.
 Proof. vm_compute. repeat split. Qed.
+
+(* ---------- the template both functions take: get_cluster_mean_waveforms (C08) and get_cluster_channels (C05) ----------
+   get_cluster_mean_waveforms takes np.argmax of the bincount of the cluster's templates; C05's
+   _get_template_from_spikes takes np.argmax of the counts returned by np.unique.  Both are "the template with the most
+   of the cluster's spikes, the smallest id among equally frequent ones" (C05.Spec.Main_template): the dominant template
+   of C08_dominant_lowest is C05's main template, so (unwhiten=True) get_cluster_mean_waveforms(c).channel_ids and
+   get_cluster_channels(c) are the channel list of the same get_template call. *)
+Lemma count_link (a b : list Z) (c : Z) (t : nat) : (forall v, In v b -> 0 <= v) ->
+  M5.count_nat t (S5.cluster_templates (map Z.to_nat b) a c) =
+  Z.of_nat (length (filter (fun p => (fst p =? c) && (snd p =? Z.of_nat t)) (combine a b))).
+Proof.
+  unfold M5.count_nat, S5.cluster_templates. intros Hb. f_equal. revert b Hb.
+  induction a as [|x a IH]; intros [|y b] Hb; cbn [map combine filter]; try reflexivity.
+  cbn [fst snd]. assert (Hy : 0 <= y) by (apply Hb; now left).
+  assert (IH' := IH b (fun v Hv => Hb v (or_intror Hv))).
+  destruct (x =? c); cbn [andb map filter fst]; [|exact IH'].
+  destruct (Nat.eqb_spec t (Z.to_nat y)) as [E|E].
+  - replace (y =? Z.of_nat t) with true by lia. cbn [length]. now rewrite IH'.
+  - replace (y =? Z.of_nat t) with false by lia. exact IH'.
+Qed.
+
+Lemma filter_eqb_nil (x : nat) l : ~ In x l -> filter (Nat.eqb x) l = [].
+Proof.
+  induction l as [|z l IH]; intros H; [reflexivity|]. cbn.
+  destruct (Nat.eqb_spec x z) as [->|]; [exfalso; apply H; now left|]. apply IH. intros Hl. apply H. now right.
+Qed.
+
+Theorem link_main_template d c unw m :
+  WF d -> mean_waveforms d c unw = Some m ->
+  exists tb, M5.main_template (map Z.to_nat (d_st d)) (d_sc d) c = Some tb /\
+             Dominant d c tb /\ mw_chans m = chans_of d unw tb.
+Proof.
+  intros Hwf H. destruct (mean_waveforms_lowest d c unw m Hwf H) as (tb & Hdom & Hch & Hlow).
+  exists tb. split; [|split; assumption]. apply C05.Proofs7.main_template_complete.
+  pose proof Hwf as (HL & Hr & _).
+  assert (Hnn : forall v, In v (d_st d) -> 0 <= v) by (intros v Hv; apply Hr in Hv; lia).
+  assert (Hc : forall t, M5.count_nat t (S5.cluster_templates (map Z.to_nat (d_st d)) (d_sc d) c) = cnt d c (Z.of_nat t))
+    by (intros t; apply count_link; exact Hnn).
+  destruct Hdom as (Hlt & Hpos & Hmax).
+  assert (Hout : forall t, (length (d_tmpl d) <= t)%nat -> cnt d c (Z.of_nat t) = 0).
+  { intros t Ht. unfold cnt.
+    assert (E : forall l : list (Z * Z), (forall p, In p l -> snd p < Z.of_nat (length (d_tmpl d))) ->
+                filter (fun p => (fst p =? c) && (snd p =? Z.of_nat t)) l = []).
+    { induction l as [|p l IHl]; intros Hl; [reflexivity|]. cbn [filter].
+      pose proof (Hl p (or_introl eq_refl)). replace (snd p =? Z.of_nat t) with false by lia.
+      rewrite andb_false_r. apply IHl. intros q Hq. apply Hl. now right. }
+    rewrite E; [reflexivity|]. intros [a b] Hp. apply in_combine_r in Hp. apply Hr in Hp. unfold n_templates, zlen in Hp.
+    cbn [snd]. lia. }
+  unfold S5.Main_template. cbv zeta. repeat split.
+  - (* tb occurs among the cluster's templates: its count is positive *)
+    destruct (in_dec Nat.eq_dec tb (S5.cluster_templates (map Z.to_nat (d_st d)) (d_sc d) c)) as [Hin|Hnin]; [exact Hin|].
+    exfalso. specialize (Hc tb). unfold M5.count_nat in Hc.
+    replace (filter (Nat.eqb tb) _) with (@nil nat) in Hc; [cbn in Hc; lia|].
+    symmetry. now apply filter_eqb_nil.
+  - intros t. rewrite !Hc. destruct (Nat.lt_ge_cases t (length (d_tmpl d))) as [Ht|Ht]; [now apply Hmax|].
+    rewrite (Hout t Ht). lia.
+  - intros t Et. rewrite !Hc in Et. destruct (Nat.le_gt_cases tb t) as [|Hgt]; [assumption|].
+    specialize (Hlow t Hgt). lia.
+Qed.
+Print Assumptions link_main_template.
